@@ -44,7 +44,29 @@ type c41Pkt struct {
 	b        []byte
 }
 
-func c41Fill(rng *rand.Rand, b []byte) {
+// c41Pool64k is a per-case block of PRNG bytes; packet bodies are slices of it
+// taken at PRNG offsets (much cheaper under the race detector than drawing
+// every byte), made unique by the ids stamped into the headers.
+type c41Rand struct {
+	*rand.Rand
+	block []byte
+}
+
+func c41NewRand(rng *rand.Rand) *c41Rand {
+	r := &c41Rand{Rand: rng, block: make([]byte, 1<<16)}
+	c41FillSlow(rng, r.block)
+	return r
+}
+
+func c41Fill(rng *c41Rand, b []byte) {
+	for len(b) > 0 {
+		off := rng.IntN(len(rng.block))
+		n := copy(b, rng.block[off:])
+		b = b[n:]
+	}
+}
+
+func c41FillSlow(rng *rand.Rand, b []byte) {
 	i := 0
 	for ; i+8 <= len(b); i += 8 {
 		binary.LittleEndian.PutUint64(b[i:], rng.Uint64())
@@ -70,7 +92,7 @@ func c41Csum(h []byte) uint16 {
 // c41V4 builds a well-formed IPv4 packet of exactly size bytes (>= 20). The
 // unique id sits in the Identification field and the source address (and again
 // at the start of the payload when there is room).
-func c41V4(rng *rand.Rand, uid uint64, size int) []byte {
+func c41V4(rng *c41Rand, uid uint64, size int) []byte {
 	b := make([]byte, size)
 	c41Fill(rng, b)
 	ihl := 5
@@ -94,7 +116,7 @@ func c41V4(rng *rand.Rand, uid uint64, size int) []byte {
 
 // c41V6 builds a well-formed IPv6 packet of exactly size bytes (>= 40); the
 // unique id is the low half of the source address.
-func c41V6(rng *rand.Rand, uid uint64, size int) []byte {
+func c41V6(rng *c41Rand, uid uint64, size int) []byte {
 	b := make([]byte, size)
 	c41Fill(rng, b)
 	b[0] = 0x60 | b[0]&0x0f
@@ -113,7 +135,7 @@ var c41InvalidKinds = []string{"empty", "version", "v4short", "v4len+", "v4len-"
 // c41Invalid builds a packet that is not a valid IPv4/IPv6 packet by the only
 // criteria the SIG framing knows: version nibble, fixed header present, length
 // field equal to the actual length.
-func c41Invalid(rng *rand.Rand, uid uint64, kind string, size int) []byte {
+func c41Invalid(rng *c41Rand, uid uint64, kind string, size int) []byte {
 	switch kind {
 	case "empty":
 		return []byte{}
@@ -199,7 +221,7 @@ func c41MTUBucket(m int) string {
 	return ">9000"
 }
 
-func c41PickMTU(rng *rand.Rand) int {
+func c41PickMTU(rng *c41Rand) int {
 	switch x := rng.IntN(20); {
 	case x < 4:
 		return dataplane.VerifMinMTU + rng.IntN(8)
@@ -215,7 +237,7 @@ func c41PickMTU(rng *rand.Rand) int {
 	return []int{dataplane.VerifMinMTU, 1280 - 150, 1472, 9000, 65535}[rng.IntN(5)]
 }
 
-func c41PickSize(rng *rand.Rand, payload, minSize int) int {
+func c41PickSize(rng *c41Rand, payload, minSize int) int {
 	clamp := func(v int) int { return max(minSize, min(v, 9000)) }
 	switch x := rng.IntN(20); {
 	case x < 5:
@@ -238,7 +260,7 @@ func c41PickSize(rng *rand.Rand, payload, minSize int) int {
 	}
 }
 
-func c41GenStream(rng *rand.Rand, caseIdx, sIdx int, uid *uint64, budget int) *c41Stream {
+func c41GenStream(rng *c41Rand, caseIdx, sIdx int, uid *uint64, budget int) *c41Stream {
 	s := &c41Stream{MTU: c41PickMTU(rng), Sess: uint8(rng.IntN(256))}
 	// distinct 20-bit stream ids within a case (reuse of one id by two encoders
 	// is outside the protocol's defence and is not generated)
@@ -251,7 +273,7 @@ func c41GenStream(rng *rand.Rand, caseIdx, sIdx int, uid *uint64, budget int) *c
 	pInv := []float64{0, 0.1, 0.3}[rng.IntN(3)]
 	vmix := rng.IntN(3) // 0 v4, 1 v6, 2 both
 	payload := s.MTU - dataplane.VerifHdrLen
-	budget = min(budget, 1200*payload) // bound the number of frames per stream
+	budget = min(budget, 800*payload) // bound the number of frames per stream
 	total := 0
 	for i := 0; i < n && total < budget; i++ {
 		*uid++
@@ -691,7 +713,7 @@ func c41Faults(rng *rand.Rand, base []c41Delivery, profile string) ([]c41Deliver
 
 func (cx *c41Ctx) runCase(idx int) {
 	r := cx.r
-	rng := r.Rand(fmt.Sprintf("c41/%d", idx))
+	rng := c41NewRand(r.Rand(fmt.Sprintf("c41/%d", idx)))
 	c := &c41Case{Index: idx, index: map[string]c41Ref{}}
 	nStreams := []int{1, 1, 1, 1, 2, 2, 3, 4}[rng.IntN(8)]
 	var uid uint64
@@ -713,7 +735,7 @@ func (cx *c41Ctx) runCase(idx int) {
 	// ---- sender ----
 	for si, s := range c.Streams {
 		t0 := time.Now()
-		if !s.encode(rng) {
+		if !s.encode(rng.Rand) {
 			r.Inconclusive("encoder stalled (watchdog)")
 			return
 		}
@@ -814,7 +836,7 @@ func (cx *c41Ctx) runCase(idx int) {
 	}
 	// ---- lossless: several streams interleaved, each in order ----
 	if nStreams > 1 {
-		sched := c41Interleave(rng, c.Streams)
+		sched := c41Interleave(rng.Rand, c.Streams)
 		out, miss := cx.receive(c.Streams, sched, "direct", nil)
 		if miss > 0 {
 			r.Inconclusive("frame buffer pool empty")
@@ -825,10 +847,18 @@ func (cx *c41Ctx) runCase(idx int) {
 	}
 
 	// ---- faults ----
-	for run := 0; run < 2; run++ {
+	nFrames := 0
+	for _, s := range c.Streams {
+		nFrames += len(s.frames)
+	}
+	faultRuns := 2
+	if nFrames > 500 {
+		faultRuns = 1
+	}
+	for run := 0; run < faultRuns; run++ {
 		profile := c41Profiles[rng.IntN(len(c41Profiles))]
-		base := c41Interleave(rng, c.Streams)
-		sched, st := c41Faults(rng, base, profile)
+		base := c41Interleave(rng.Rand, c.Streams)
+		sched, st := c41Faults(rng.Rand, base, profile)
 		rx := "direct"
 		cleanups := map[int]int{}
 		switch rng.IntN(4) {
@@ -983,7 +1013,7 @@ func checkC41(r *mon.Run) {
 	cx := &c41Ctx{r: r, pool: &c41Pool{free: dataplane.VerifFreeFramesCap - 24, total: dataplane.VerifFreeFramesCap - 24}}
 	cx.pool.c = sync.NewCond(&cx.pool.mu)
 
-	first, total := 0, r.Pick(500, 12000)
+	first, total := 0, r.Pick(400, 8000)
 	if f := r.ReplayFile(); f != "" {
 		var rp struct {
 			Witness struct {
@@ -1003,7 +1033,7 @@ func checkC41(r *mon.Run) {
 	var next atomic.Int64
 	next.Store(int64(first))
 	var wg sync.WaitGroup
-	for w := 0; w < min(runtime.GOMAXPROCS(0), 8); w++ {
+	for w := 0; w < min(runtime.GOMAXPROCS(0), 12); w++ {
 		wg.Add(1)
 		go func() {
 			defer wg.Done()
@@ -1024,7 +1054,7 @@ func checkC41(r *mon.Run) {
 		r.Require(1, 2, "lossless_stream")
 		return
 	}
-	r.Require(int64(total)*3, 150,
+	r.Require(int64(total)*4, 150,
 		"lossless_stream", "fault_run", "tx_valid_packet_accepted", "tx_invalid_packet_offered", "tx_ring_full_drop", "tx_ring_full_retry",
 		"rx_lossless_packet_exact", "rx_lossless_packet_reassembled_from_several_frames",
 		"fault_frame_dropped", "fault_frame_duplicated", "fault_frame_displaced", "fault_worker_cleanup",
